@@ -258,3 +258,36 @@ SUBS = [
     Sub("thermal", check_thermal, gen=thermal_cases, quick=150, thorough=600, shards=4),
     Sub("beam", check_beam, gen=beam_cases, quick=120, thorough=600, shards=4),
 ]
+
+
+# ------------------------------------------------------------------------------------------
+# rows of elements (n x 1 (x 1), n = 2, 3): the meshes on which element-level mechanisms of an under-integrated stiffness are the
+# most likely to survive assembly (the generated meshes are rarely one element thick in two directions); every continuum type
+
+
+def _row_recipes():
+    A2 = [[1.1, 0.3], [-0.2, 0.9]]
+    A3 = [[1.1, 0.3, 0.1], [-0.2, 0.9, 0.2], [0.1, -0.1, 1.2]]
+    for et in gm.T2D + gm.T3D:
+        d3 = et in gm.T3D
+        for L in (2.0, 3.0):
+            yield dict(verts=[[0.0, 0.0], [L, 0.0], [L, 1.0], [0.0, 1.0]], h=1.0, elemType=et, organised=True,
+                       extrude=[0.0, 0.0, 1.0] if d3 else None, layers=1 if d3 else 0, A=A3 if d3 else A2,
+                       b=[0.3, -0.2, 0.1] if d3 else [0.3, -0.2], perm=None, orphans=0)
+
+
+def enum_rows_elastic(tier):
+    for i, r in enumerate(_row_recipes()):
+        dim = gm.dim_of(r["elemType"])
+        law = dict(cls="iso", dim=dim, planeStress=(i % 2 == 0) and dim == 2, thickness=0.5 if dim == 2 else 1.0, E=3.0, v=0.3,
+                   angles=[0.1] * (3 if dim == 3 else 1))
+        yield dict(recipe=r, law=law, rho=1.5, rho_field=None, load_seed=i)
+
+
+def enum_rows_thermal(tier):
+    for r in _row_recipes():
+        yield dict(recipe=r, k=1.5, c=2.0, rho=0.75, thickness=0.5)
+
+
+SUBS.append(Sub("elastic_rows", check_elastic, enum=enum_rows_elastic))
+SUBS.append(Sub("thermal_rows", check_thermal, enum=enum_rows_thermal))
